@@ -127,6 +127,9 @@ pub fn gen_schedule(rng: &mut Rng, k: usize, lens: &[usize]) -> Vec<usize> {
 #[derive(Clone, Debug, Serialize, Deserialize, PartialEq, Eq)]
 pub enum Step16 {
     Fail(u8),
+    /// a failing call on one of the run's long-lived shared packets (slot index): the packet
+    /// outlives the call and may be used by another thread next (a packet handed down a pipeline)
+    FailOn(u8, u8),
     Read,
     Okay(u8),
 }
@@ -364,24 +367,35 @@ fn native_fail_text(kind: u8, bytes: &[u8]) -> Option<String> {
 
 /// Performs a failing call through the C table on the calling thread. Returns (rc, expected text).
 unsafe fn table_fail(t: &FnTable, err: &mut *const CErr, kind: u8, bytes: &[u8]) -> (i32, Option<String>) {
-    let expected = native_fail_text(kind, bytes);
     let mut pp = match DNSSector::new(bytes.to_vec()).and_then(|d| d.parse()) {
         Ok(p) => p,
         Err(_) => return (0, None),
     };
+    table_fail_on(t, err, kind, &mut pp)
+}
+
+/// Same, on a packet that outlives the call.
+unsafe fn table_fail_on(t: &FnTable, err: &mut *const CErr, kind: u8, pp_ext: &mut ParsedPacket) -> (i32, Option<String>) {
+    let bytes_now: Vec<u8> = match &pp_ext.packet {
+        Some(b) => b.clone(),
+        None => return (0, None),
+    };
+    let bytes = &bytes_now[..];
+    let expected = native_fail_text(kind, bytes);
+    let pp = pp_ext;
     let rc = match kind {
         0 => {
             let s = CString::new("this is not a record").unwrap();
-            (t.add_to_answer)(&mut pp, err, s.as_ptr())
+            (t.add_to_answer)(&mut *pp, err, s.as_ptr())
         }
         1 => {
             let s = CString::new("second.example. 60 IN A 192.0.2.9").unwrap();
-            (t.add_to_question)(&mut pp, err, s.as_ptr())
+            (t.add_to_question)(&mut *pp, err, s.as_ptr())
         }
         19 => {
             let src = b"\x07example\x03com\x00";
             let tgt = b"\x03a.b\x00";
-            (t.rename_with_raw_names)(&mut pp, err, tgt.as_ptr(), tgt.len(), src.as_ptr(), src.len(), true)
+            (t.rename_with_raw_names)(&mut *pp, err, tgt.as_ptr(), tgt.len(), src.as_ptr(), src.len(), true)
         }
         20 => {
             let mut big = match DNSSector::new(big_packet()).and_then(|d| d.parse()) {
@@ -398,7 +412,7 @@ unsafe fn table_fail(t: &FnTable, err: &mut *const CErr, kind: u8, bytes: &[u8])
                 _ => "example.com. 60 IN MX 70000 mx.example.com.".to_string(),
             };
             let s = CString::new(text).unwrap();
-            (t.add_to_answer)(&mut pp, err, s.as_ptr())
+            (t.add_to_answer)(&mut *pp, err, s.as_ptr())
         }
         2 | 3 | 4 | 5 => {
             let name: Vec<u8> = match kind {
@@ -421,12 +435,12 @@ unsafe fn table_fail(t: &FnTable, err: &mut *const CErr, kind: u8, bytes: &[u8])
         6 => {
             let src = b"\x03www\x07example\x03com\x00";
             let empty: [u8; 0] = [];
-            (t.rename_with_raw_names)(&mut pp, err, empty.as_ptr(), 0, src.as_ptr(), src.len(), false)
+            (t.rename_with_raw_names)(&mut *pp, err, empty.as_ptr(), 0, src.as_ptr(), src.len(), false)
         }
         7 => {
             let src = b"\x03www\x07example\x03com\x00";
             let tgt = b"\x00";
-            (t.rename_with_raw_names)(&mut pp, err, tgt.as_ptr(), tgt.len(), src.as_ptr(), src.len(), false)
+            (t.rename_with_raw_names)(&mut *pp, err, tgt.as_ptr(), tgt.len(), src.as_ptr(), src.len(), false)
         }
         8..=15 | 21 => {
             let mut ctx = CbCtx {
@@ -436,7 +450,7 @@ unsafe fn table_fail(t: &FnTable, err: &mut *const CErr, kind: u8, bytes: &[u8])
                 rc: 0,
                 native_text: None,
             };
-            (t.iter_answer)(&mut pp, cb16, &mut ctx as *mut _ as *mut c_void);
+            (t.iter_answer)(&mut *pp, cb16, &mut ctx as *mut _ as *mut c_void);
             *err = ctx.err;
             let _ = &ctx.native_text;
             ctx.rc
@@ -497,9 +511,18 @@ fn exec16(sc: &Scen16) -> (Option<Violation>, u64, Stats, bool) {
     let k = sc.threads.len();
     let scripts = sc.threads.clone();
     let bytes = base_packet();
+    // long-lived packets shared by all threads of the run (one thread runs at a time)
+    let slots: std::sync::Arc<Vec<std::sync::Mutex<Option<ParsedPacket>>>> = std::sync::Arc::new(
+        (0..2)
+            .map(|_| std::sync::Mutex::new(DNSSector::new(bytes.clone()).and_then(|d| d.parse()).ok()))
+            .collect(),
+    );
+    let slots_for_threads = slots.clone();
+    let run_tag = RUN_IN_FLIGHT.load(std::sync::atomic::Ordering::Relaxed);
     let parked: Parked<Res16> = Parked::spawn(k, move |i| {
         let script = scripts[i].clone();
         let bytes = bytes.clone();
+        let slots = slots_for_threads.clone();
         let table = dnssector::fn_table();
         let mut err: *const CErr = std::ptr::null();
         let mut pc = 0usize;
@@ -509,11 +532,26 @@ fn exec16(sc: &Scen16) -> (Option<Violation>, u64, Stats, bool) {
                 None => return Res16::Exhausted,
             };
             pc += 1;
+            // names the step in flight, should the process die inside it
+            eprintln!("T {} {} {:?}", run_tag, i, step);
             let r = guarded(|| unsafe {
                 match step {
                     Step16::Fail(kind) => {
                         let (rc, exp) = table_fail(&table, &mut err, kind, &bytes);
                         Res16::Failed(rc, exp)
+                    }
+                    Step16::FailOn(kind, slot) => {
+                        let mut g = match slots[slot as usize % slots.len()].lock() {
+                            Ok(g) => g,
+                            Err(p) => p.into_inner(),
+                        };
+                        match g.as_mut() {
+                            Some(pp) => {
+                                let (rc, exp) = table_fail_on(&table, &mut err, kind, pp);
+                                Res16::Failed(rc, exp)
+                            }
+                            None => Res16::Failed(0, None),
+                        }
                     }
                     Step16::Read => {
                         if err.is_null() {
@@ -640,8 +678,11 @@ fn exec16(sc: &Scen16) -> (Option<Violation>, u64, Stats, bool) {
         }
     }
     parked.finish();
+    drop(slots);
     (violation, log.finish(), stats, nontrivial)
 }
+
+pub static RUN_IN_FLIGHT: std::sync::atomic::AtomicU64 = std::sync::atomic::AtomicU64::new(0);
 
 fn gen16(rng: &mut Rng) -> Scen16 {
     let k = rng.range(2, 4);
@@ -657,7 +698,8 @@ fn gen16(rng: &mut Rng) -> Scen16 {
         let mut s = Vec::new();
         for _ in 0..n {
             s.push(match rng.below(10) {
-                0..=3 => Step16::Fail(*rng.pick(&palette)),
+                0..=2 => Step16::Fail(*rng.pick(&palette)),
+                3 => Step16::FailOn(*rng.pick(&palette), rng.below(2) as u8),
                 4..=7 => Step16::Read,
                 _ => Step16::Okay(rng.below(4) as u8),
             });
@@ -687,6 +729,7 @@ pub fn run_c16(seed: u64, run: u64) -> RunReport {
     let s = prng::mix(seed, "C16", run);
     let mut rng = Rng::new(s);
     let sc = gen16(&mut rng);
+    RUN_IN_FLIGHT.store(run, std::sync::atomic::Ordering::Relaxed);
     let (v, log_hash, mut stats, nontrivial) = exec16(&sc);
     bump(&mut stats, &format!("threads:{}", sc.threads.len()));
     let scenario = serde_json::to_value(&sc).unwrap();
@@ -1186,6 +1229,29 @@ pub fn run_c17(seed: u64, run: u64) -> RunReport {
 // ---------------------------------------------------------------------------------------------
 // replay / minimise
 // ---------------------------------------------------------------------------------------------
+
+/// A worker died while a C16 step was in flight (e.g. a description read through a pointer the
+/// library had already freed): the scenario is regenerated from (seed, run).
+pub fn death_violation_c16(seed: u64, run: u64, why: &str) -> Value {
+    let s = prng::mix(seed, "C16", run);
+    let mut rng = Rng::new(s);
+    let sc = gen16(&mut rng);
+    let marker = crate::supervisor::marker_line(why, "T ").unwrap_or_default();
+    let v = Violation {
+        props: vec!["C16"],
+        clause: "crash".into(),
+        op: if marker.contains("Read") { "error_description".into() } else { "table-call".into() },
+        key: "process-died".into(),
+        detail: format!(
+            "the process died while a thread was performing [{}]: the description (or the slot behind it) did not stay intact until that thread's next failure ({})",
+            marker,
+            why.lines().find(|l| l.contains("signal")).unwrap_or("").trim().chars().take(160).collect::<String>()
+        ),
+        step: 0,
+    };
+    json!({"run": run, "seed": seed, "lane": "T", "violation": crate::lanes::violation_json(&v),
+           "scenario": serde_json::to_value(&sc).unwrap()})
+}
 
 pub fn replay(prop: &str, scenario: &Value, _verbose: bool) -> Result<Option<Violation>, String> {
     match prop {
